@@ -85,4 +85,16 @@ theorem source_0800_roundtrip (fuel : Nat) (j : Gen.GoFrame.jt808_JTMessage) (t 
       ∃ r, Gen.GoModel.model_T0x0800_Parse fuel q { j with Body := body } = .ok (r, none) ∧ r.MultimediaID = t.MultimediaID ∧ r.MultimediaType = t.MultimediaType ∧ r.MultimediaFormatEncode = t.MultimediaFormatEncode ∧ r.EventItemEncode = t.EventItemEncode ∧ r.ChannelID = t.ChannelID :=
   Gen.GoModel.T0x0800_roundtrip fuel t q j
 
+/-- **The active-safety encoders, translated source, never panic**: the alarm-sign block (identifier padded or cut to 7 /
+30 bytes by `String2FillingBytes`, BCD time, reserve bytes filled up to the dialect's block length), `P0x9208.Encode` and
+`T0x1210.Encode` (with its attachment-list loop) return a byte string for every receiver, every dialect and every list. -/
+theorem source_active_safety_encoders_total (fuel : Nat) :
+    (∀ p : Gen.GoModel.model_P9208AlarmSign, p.Time.length + 1 < fuel → ∃ r, Gen.GoModel.model_P9208AlarmSign_encode fuel p = .ok r) ∧
+    (∀ p : Gen.GoModel.model_P0x9208, p.P9208AlarmSign.Time.length + 1 < fuel → ∃ r, Gen.GoModel.model_P0x9208_Encode fuel p = .ok r) ∧
+    (∀ t : Gen.GoModel.model_T0x1210, t.P9208AlarmSign.Time.length + 1 < fuel → t.T0x1210AlarmItemList.length < fuel →
+      ∃ r, Gen.GoModel.model_T0x1210_Encode fuel t = .ok r) :=
+  ⟨fun p h => (Go.X.isOk_iff _).mp (Gen.GoModel.AlarmSign_encode_total fuel p h),
+   fun p h => (Go.X.isOk_iff _).mp (Gen.GoModel.P0x9208_Encode_total fuel p h),
+   fun t h hl => (Go.X.isOk_iff _).mp (Gen.GoModel.T0x1210_Encode_total fuel t h hl)⟩
+
 end JT.C07
